@@ -325,6 +325,43 @@ def _marker(ctx) -> str:
     raise AnalysisError("_lua_set_timeout: the hook's error(...) marker was not found")
 
 
+def rule_r6(ctx) -> RuleResult:
+    """An invocation cut short by the time limit leaves nothing behind in the module
+    cache: `_save_mod` is only ever called with the value *returned* by a module's
+    initialisation chunk, after that chunk has run.  (A placeholder stored before the
+    chunk runs survives a timeout for the retained modules and breaks every later
+    require of that module on the same context.)"""
+    rr = RuleResult("C07.R6", "the module cache receives only results of completed initialisation chunks", min_instances=1)
+    for fname in ("_sandbox_phase1.lua", "_sandbox_phase2.lua"):
+        lf = ctx.lua.file(fname)
+        for c in L.calls_in(lf.chunk):
+            if c.kind != "call" or L.text(c.func) != "_save_mod" or len(c.args) != 2:
+                continue
+            v = c.args[1]
+            owner = lf.res.func_of.get(c)
+            where = "{}:{}".format(fname, getattr(owner, "name", None) or "line {}".format(c.line))
+            d = lf.res.ref.get(v) if v.kind == "name" else None
+            srcs = []
+            if d is not None and d.kind == "local":
+                if d.value is not None:
+                    srcs.append((d.value, d.node))
+                elif d.node.kind == "local" and d.node.exprs and d.node.exprs[-1].kind in ("call", "methcall"):
+                    srcs.append((d.node.exprs[-1], d.node))
+                for val, st, _fn in d.assigned_later:
+                    if val is None and st.exprs and st.exprs[-1].kind in ("call", "methcall"):
+                        val = st.exprs[-1]
+                    srcs.append((val, st))
+            call_srcs = [(e, st) for e, st in srcs if e is not None and e.kind in ("call", "methcall")]
+            other = [(e, st) for e, st in srcs if e is None or e.kind not in ("call", "methcall", "nil")]
+            if d is None or other or not call_srcs or min(st.line for _, st in call_srcs) > c.line:
+                rr.bad(Finding("C07.R6", "src/wikitextprocessor/lua/" + fname, where, L.text(c),
+                               "the module cache is written with a value that is not the result of the module's completed initialisation "
+                               "chunk; a timeout during initialisation leaves it behind for every later invocation", c.line))
+            else:
+                rr.ok(where, L.text(c), {"file": fname, "call": L.text(c), "value_from": [L.text(e) for e, _ in call_srcs]})
+    return rr
+
+
 def run(ctx) -> list:
     marker = _marker(ctx)
-    return [rule_r1(ctx), rule_r2(ctx, marker), rule_r3(ctx), rule_r4(ctx, marker), rule_r5(ctx, marker)]
+    return [rule_r1(ctx), rule_r2(ctx, marker), rule_r3(ctx), rule_r4(ctx, marker), rule_r5(ctx, marker), rule_r6(ctx)]
